@@ -741,6 +741,15 @@ func (ra *ringAbs) setRefined(s *rstate, v ssa.Value, iv rival, d int) {
 		iv = ctx.meet(old, iv)
 	}
 	s.env[v] = iv
+	// the value last stored into a field is that field (q.n = last; if last == 0 …)
+	if d == 0 {
+		if s.nSrc == v {
+			s.n = ctx.meet(s.n, iv)
+		}
+		if s.headSrc == v {
+			s.head = ctx.meet(s.head, iv)
+		}
+	}
 	if niv := ctx.normIv(iv); niv.lo.inf == 0 && niv.hi.inf == 0 && niv.lo == niv.hi && niv.lo.a == 0 {
 		// v = k exactly: its class is ≡ k
 		if cv := ra.clsOf(s, v, 0); cv.ok && (cv.h != 0 || cv.n != 0 || cv.rc != 0) {
@@ -1957,7 +1966,8 @@ func (ra *ringAbs) step(fn *ssa.Function, qv ssa.Value, s *rstate, ins ssa.Instr
 					// logical position n of the new element only if the buffer is exactly full and starts at 0
 					gk := name + ":growth appends at position n"
 					ra.site(gk, x.Pos())
-					full := ctx.same(s.n, rexact(rL))
+					// (the count may already include the element being added: n = L + 1 with the new cell at position n − 1)
+					full := ctx.same(s.n, rexact(rL)) || ctx.same(s.n, rexact(radd(rL, rconst(1))))
 					atZero := ctx.same(s.head, rexact(rconst(0)))
 					switch {
 					case !full:
